@@ -168,6 +168,8 @@ type chain struct {
 	// blocksFirst: child templates write their block definitions BEFORE the extends tag (extends only has to be at
 	// root level, not first)
 	blocksFirst bool
+	// superAfter: a definition that both nests a new block and uses Super writes the nested block FIRST
+	superAfter bool
 	shape       string
 	levels      []*level // levels[0] = base
 }
@@ -190,6 +192,21 @@ func superRef(form int, parent string) string {
 }
 
 func (d *def) src(name string, lv int, form int, nestedBody func(string) string) string {
+	return d.srcOrd(name, lv, form, false, nestedBody)
+}
+
+func (d *def) srcOrd(name string, lv int, form int, superAfter bool, nestedBody func(string) string) string {
+	if superAfter && d.super && d.nested != "" && !d.empty {
+		var b strings.Builder
+		fmt.Fprintf(&b, "{%% block %s %%}%s%d", name, name, lv)
+		if d.loopI {
+			b.WriteString("{{ i }}")
+		}
+		b.WriteString("(" + nestedBody(d.nested) + ")")
+		b.WriteString(superSrc(form))
+		fmt.Fprintf(&b, "{%% endblock %%}")
+		return b.String()
+	}
 	var b strings.Builder
 	if d.empty {
 		return fmt.Sprintf("{%% block %s %%}{%% endblock %%}", name)
@@ -221,7 +238,7 @@ func (c *chain) files() map[string]string {
 		}
 		var defSrc func(name string) string
 		defSrc = func(name string) string {
-			return L.defs[name].src(name, lv, c.superForm, defSrc)
+			return L.defs[name].srcOrd(name, lv, c.superForm, c.superAfter, defSrc)
 		}
 		var b strings.Builder
 		if lv == 0 {
@@ -300,15 +317,21 @@ func (c *chain) render(j int) string {
 		if d.loopI {
 			b.WriteString(i)
 		}
+		superPart := ""
 		if d.super {
 			parent := ""
 			if k > 0 {
 				parent = renderBlock(name, k-1, i)
 			}
-			b.WriteString(superRef(c.superForm, parent))
+			superPart = superRef(c.superForm, parent)
 		}
-		if d.nested != "" {
-			b.WriteString("(" + renderBlock(d.nested, -1, i) + ")")
+		if c.superAfter && d.super && d.nested != "" {
+			b.WriteString("(" + renderBlock(d.nested, -1, i) + ")" + superPart)
+		} else {
+			b.WriteString(superPart)
+			if d.nested != "" {
+				b.WriteString("(" + renderBlock(d.nested, -1, i) + ")")
+			}
 		}
 		return b.String()
 	}
@@ -395,14 +418,28 @@ func run(r *eng.Runner) {
 				renders = append(renders, Render{Name: fmt.Sprintf("/t%d", j), Want: eng.Q(c.render(j))})
 			}
 			r.Do(&Case{Files: files, Renders: renders, Label: shape})
+			// the same chain with Super written after the nested block of the same definition
+			if c.superForm == 0 && !c.blocksFirst && !c.superAfter {
+				both := false
+				for _, L := range c.levels {
+					for _, d := range L.defs {
+						both = both || (d.super && d.nested != "" && !d.empty)
+					}
+				}
+				if both {
+					c2 := *c
+					c2.superAfter = true
+					emitForm(&c2)
+				}
+			}
 			// the same chain with the block definitions written in front of the extends tags
-			if c.superForm == 0 && !c.blocksFirst && n >= 2 && n <= formDepth {
+			if c.superForm == 0 && !c.blocksFirst && !c.superAfter && n >= 2 && n <= formDepth {
 				c2 := *c
 				c2.blocksFirst = true
 				emitForm(&c2)
 			}
 			// the same chain with the other spellings of Super (only where some definition uses it)
-			if c.superForm == 0 && !c.blocksFirst && n <= formDepth {
+			if c.superForm == 0 && !c.blocksFirst && !c.superAfter && n <= formDepth {
 				uses := false
 				for _, L := range c.levels {
 					for _, d := range L.defs {
@@ -572,7 +609,7 @@ func init() {
 		Title: "Inheritance: the most-derived block wins, Super reaches the parent",
 		Rule:  "bounded-exhaustive: every inheritance chain up to the depth bound in which each level leaves each known block absent, redefines it, or redefines it with block.Super (block a may also introduce a new nested block that later levels may override), over five placements of the block in the base document, served from an in-memory loader; every template of the chain is rendered (leaf first, then each level, then the base again) and compared with the reference resolution (most-derived definition, Super = next less-derived, empty at the bottom, junk outside blocks ignored). Plus the invalid shapes, which must be compile errors. All cases non-trivial.",
 		Assumptions: []string{
-			"reference resolution of DESIGN.md Appendix A.6; block.Super is written before a nested block inside a definition",
+			"reference resolution of DESIGN.md Appendix A.6",
 		},
 		Run: run,
 	})
